@@ -963,6 +963,161 @@ def _short(s, n=600):
     return t if len(t) <= n else t[:n] + "..."
 
 
+# ============================================== exploration: input aliasing
+# The statement of C04 is about the ARGUMENTS of a call staying equal to their
+# snapshot (and repeat-call equality).  Whether a RESULT keeps a hidden
+# reference to a caller-owned mutable input (so that a later in-place edit of
+# that input by the caller changes the result) is the mirror image and is not
+# part of the statement: it is explored and recorded here, it never prints
+# VIOLATION for C04.
+def perturb_inputs(o, depth=0):
+    import qutip as q
+    if depth > 3 or o is None:
+        return
+    try:
+        if isinstance(o, np.ndarray):
+            if o.flags.writeable and o.dtype != object:
+                o *= 3
+                o += 1
+        elif isinstance(o, q.QobjEvo):
+            o *= 2
+        elif isinstance(o, q.Qobj):
+            o.tidyup(1e300)
+        elif isinstance(o, dict):
+            for k in list(o):
+                if isinstance(o[k], (int, float, complex)) and not isinstance(o[k], bool):
+                    o[k] = o[k] * 2 + 1
+                else:
+                    perturb_inputs(o[k], depth + 1)
+            o["__c04_new_key"] = 1.0
+        elif isinstance(o, list):
+            for i, v in enumerate(list(o)):
+                if isinstance(v, (int, float, complex)) and not isinstance(v, bool):
+                    o[i] = v * 2 + 1
+                else:
+                    perturb_inputs(v, depth + 1)
+            if o and all(isinstance(v, (int, float)) for v in o):
+                o.append(o[-1] + 1)
+    except Exception:
+        pass
+
+
+def aliasing_cases(rng):
+    import qutip as q
+    import scipy.sparse as sp
+    import qutip.core.data as _data
+    A, B, C = mats(rng)
+    cases = []
+
+    def add(name, build, make, observe=None, optout=False):
+        cases.append((name, build, make, observe or snap, optout))
+    for order in (0, 1, 2, 3):
+        add("coefficient(array,tlist,order=%d)" % order,
+            lambda: {"arr": np.array([0j, 1, 4, 9], dtype=np.complex128),
+                     "tlist": np.array([0., 1., 2., 3.])},
+            lambda i, order=order: q.coefficient(i["arr"], tlist=i["tlist"], order=order),
+            lambda c: [repr(complex(c(t))) for t in (0., 0.5, 1., 2.5, 3.)])
+    add("coefficient(func,args)", lambda: {"args": {"w": 1.0}},
+        lambda i: q.coefficient(f_targs, args=i["args"]),
+        lambda c: [repr(complex(c(t))) for t in (0., 0.5, 1.)])
+    for order in (0, 3):
+        add("QobjEvo([A,[B,array]],tlist,order=%d)" % order,
+            lambda: {"lst": [A.copy(), [B.copy(), np.array([0j, 1, 4], dtype=np.complex128)]],
+                     "tlist": np.array([0., 1., 2.])},
+            lambda i, order=order: q.QobjEvo(i["lst"], tlist=i["tlist"], order=order))
+    add("QobjEvo([A,[B,f]],args)", lambda: {"lst": [A.copy(), [B.copy(), f_targs]], "args": {"w": 1.0}},
+        lambda i: q.QobjEvo(i["lst"], args=i["args"]))
+    add("QobjEvo(QobjEvo)", lambda: {"src": q.QobjEvo([A.copy(), [B.copy(), f_t]])},
+        lambda i: q.QobjEvo(i["src"]))
+    add("QobjEvo(Qobj)", lambda: {"src": A.copy()}, lambda i: q.QobjEvo(i["src"]))
+    add("QobjEvo(Qobj,copy=False)", lambda: {"src": A.copy()}, lambda i: q.QobjEvo(i["src"], copy=False),
+        optout=True)
+    add("QobjEvo+Qobj", lambda: {"E": q.QobjEvo([[B.copy(), f_t]]), "X": A.copy()},
+        lambda i: i["E"] + i["X"], lambda r: snap(r(0.5)))
+    add("Qobj(ndarray)", lambda: {"arr": np.array([[1., 2.], [3., 4.]])}, lambda i: q.Qobj(i["arr"]))
+    add("Qobj(ndarray complex F-order)",
+        lambda: {"arr": np.asfortranarray(np.array([[1., 2.], [3., 4.]], dtype=complex))},
+        lambda i: q.Qobj(i["arr"]))
+    add("Qobj(list)", lambda: {"lst": [[1., 2.], [3., 4.]]}, lambda i: q.Qobj(i["lst"]))
+    add("Qobj(scipy csr)", lambda: {"m": sp.csr_matrix(np.array([[1., 2.], [0., 4.]], dtype=complex))},
+        lambda i: q.Qobj(i["m"]),)
+    add("Qobj(Qobj)", lambda: {"src": A.copy()}, lambda i: q.Qobj(i["src"]))
+    add("Qobj(Dense)", lambda: {"arr": np.array([[1., 2.], [3., 4.]], dtype=complex)},
+        lambda i: q.Qobj(_data.Dense(i["arr"])))
+    add("Qobj(Dense(copy=False),copy=False)", lambda: {"arr": np.array([[1., 2.], [3., 4.]], dtype=complex)},
+        lambda i: q.Qobj(_data.Dense(i["arr"], copy=False), copy=False), optout=True)
+    add("Qobj.to(other type)", lambda: {"src": A.copy()}, lambda i: i["src"].to("CSR"))
+
+    def obs_solver(S):
+        return {"rhs": snap(S.rhs if isinstance(S.rhs, q.QobjEvo) else S.rhs()),
+                "options": snap(dict(S.options))}
+    add("SESolver(H,options)", lambda: {"H": q.QobjEvo([A + A.dag(), [q.sigmax(), f_targs]], args={"w": 1.}),
+                                        "options": {"progress_bar": False, "atol": 1e-9}},
+        lambda i: q.SESolver(i["H"], options=i["options"]), obs_solver)
+    add("MESolver(H,c_ops,options)",
+        lambda: {"H": q.sigmaz() * 1.0, "c_ops": [q.sigmam() * 1.0, q.QobjEvo([[q.sigmaz(), f_t]])],
+                 "options": {"progress_bar": False}},
+        lambda i: q.MESolver(i["H"], i["c_ops"], options=i["options"]), obs_solver)
+    add("MCSolver(H,c_ops,options)",
+        lambda: {"H": q.sigmaz() * 1.0, "c_ops": [q.sigmam() * 1.0], "options": {"progress_bar": False}},
+        lambda i: q.MCSolver(i["H"], i["c_ops"], options=i["options"]), obs_solver)
+
+    def obs_result(r):
+        d = snap(r)
+        return strip_times(d)
+    add("sesolve(...) result",
+        lambda: {"H": q.sigmax() * 1.0, "psi0": make_state("ket", "C"), "tlist": [0., 0.5, 1.0],
+                 "e_ops": [q.sigmaz() * 1.0], "args": {"w": 1.0},
+                 "options": {"progress_bar": False, "store_states": True}},
+        lambda i: q.sesolve(i["H"], i["psi0"], i["tlist"], e_ops=i["e_ops"], args=i["args"],
+                            options=i["options"]), obs_result)
+    add("mesolve(...) result (ndarray tlist)",
+        lambda: {"H": q.sigmax() * 1.0, "rho0": make_state("dm", "F"), "tlist": np.array([0., 0.5, 1.0]),
+                 "c_ops": [q.sigmam() * 1.0], "options": {"progress_bar": False, "store_states": True}},
+        lambda i: q.mesolve(i["H"], i["rho0"], i["tlist"], c_ops=i["c_ops"], options=i["options"]),
+        obs_result)
+    add("mcsolve(...) result",
+        lambda: {"H": q.sigmax() * 1.0, "psi0": make_state("ket", "C"), "tlist": [0., 0.5, 1.0],
+                 "c_ops": [q.sigmam() * 1.0], "options": {"progress_bar": False, "keep_runs_results": True}},
+        lambda i: q.mcsolve(i["H"], i["psi0"], i["tlist"], c_ops=i["c_ops"], ntraj=2, seeds=1,
+                            options=i["options"]), obs_result)
+
+    def mk_merge(i):
+        return i["r1"] + i["r2"]
+    add("MultiTrajResult r1+r2",
+        lambda: {"r1": q.mcsolve(q.sigmax(), q.basis(2, 0), [0., .5], [q.sigmam()], e_ops=[q.sigmaz()],
+                                 ntraj=2, seeds=1, options={"progress_bar": False}),
+                 "r2": q.mcsolve(q.sigmax(), q.basis(2, 0), [0., .5], [q.sigmam()], e_ops=[q.sigmaz()],
+                                 ntraj=2, seeds=2, options={"progress_bar": False})},
+        mk_merge, lambda r: {"stats": snap({k: v for k, v in r.stats.items() if "time" not in k}),
+                              "options": snap(dict(r.options)), "avg": snap(r.average_expect)})
+    return cases
+
+
+def run_alias_case(case):
+    name, build, make, observe, optout = case
+    inputs = build()
+    res = make(inputs)
+    before = observe(res)
+    out = []
+    for k in list(inputs):
+        # one input at a time, so that the report names the aliased argument
+        if k in ("r1", "r2"):
+            try:
+                inputs[k].stats["__c04_new_key"] = 1
+                inputs[k].options["store_states"] = True
+            except Exception:
+                pass
+        else:
+            perturb_inputs(inputs[k])
+        after = observe(res)
+        d = diff(before, after, limit=3)
+        if d:
+            out.append((k, d[0]))
+            before = after
+    return name, out, optout
+
+
 # ============================================================== forked runner
 def forked_map(fn, items, timeout=30, mem_gb=6, max_bad=6):
     """run fn(item) for every item in a forked child (a mutated tree may hang
@@ -1248,6 +1403,75 @@ def probes():
             check(lambda h, b: HEOMSolver(h, b, 1),
                   [q.QobjEvo([H, [q.sigmax(), f_t]]), [bath, bath]], name="HEOMSolver(evo, [baths])")
     P["heom_ctor"] = _heom
+
+    # ---- third wave
+    def _data_inpl():
+        bad = []
+        D = _data.Dense(np.array([[1, 1e-20], [0, 2.]]))
+        bad += check(lambda d: _data.tidyup(d, 1e-12), [D], mut=(0,), fresh=False, name="_data.tidyup")
+        bad += check(lambda a, b: _data.iadd_dense(a, b), [_data.Dense(np.eye(2)), _data.Dense(np.ones((2, 2)))],
+                     mut=(0,), fresh=False, name="iadd_dense")
+        bad += check(lambda a: _data.imul_dense(a, 2), [_data.Dense(np.eye(2))], mut=(0,), fresh=False,
+                     name="imul_dense")
+        return bad
+    P["data_inplace"] = _data_inpl
+
+    def _views():
+        D = _data.Dense(np.eye(2))
+        C = _data.to(_data.CSR, D)
+        ok = np.shares_memory(D.as_ndarray(), D.as_ndarray()) and \
+            np.shares_memory(C.as_scipy().data, C.as_scipy().data)
+        return [] if ok else ["as_ndarray / as_scipy are not views of the data object"]
+    P["data_views"] = _views
+    P["qobj_pure_methods"] = lambda: sum([check(f, [X], name="Qobj method") for X in (A0, A0.to("CSR"), A0.to("Dia"))
+                                          for f in (lambda a: a.eigenstates(), lambda a: a.eigenenergies(),
+                                                    lambda a: a.unit(), lambda a: a.expm(),
+                                                    lambda a: (a + 3).inv(), lambda a: a.ptrace(0),
+                                                    lambda a: a.transform(np.eye(2)))], [])
+    P["state_helpers"] = lambda: sum([check(f, [X], name="state helper")
+                                      for X in (make_state("dm", "F"), make_state("dm", "csr"))
+                                      for f in (q.operator_to_vector,
+                                                lambda r: q.vector_to_operator(q.operator_to_vector(r)),
+                                                lambda r: q.stack_columns(r.data), lambda r: q.expect(A0, r))],
+                                     []) + check(q.ket2dm, [make_state("ket", "F")], name="ket2dm")
+
+    def _c3dm():
+        from qutip.solver.correlation import _correlation_3op_dm
+        S = q.MESolver(q.sigmaz(), [q.sigmam()], options={"progress_bar": False})
+        return check(lambda s, r, t, tau, A, B, C: _correlation_3op_dm(s, r, t, tau, A, B, C),
+                     [S, make_state("dm", "F"), np.array([0.]), np.array([0., .5]), q.QobjEvo(q.qeye(2)),
+                      q.QobjEvo(q.sigmam()), q.QobjEvo(q.sigmap())],
+                     mut=(0,), name="_correlation_3op_dm")
+    P["correlation_3op_dm"] = _c3dm
+
+    def _diag():
+        from qutip.solver.spectrum import _diagonal_evolution
+        L = q.liouvillian(q.sigmaz() + .5 * q.sigmax(), [q.sigmam()])
+        bad = check(lambda l, r: _diagonal_evolution(l, r), [L, q.sigmam() * make_state("dm", "C")],
+                    name="_diagonal_evolution")
+        st_, rates = _diagonal_evolution(L, q.sigmam() * make_state("dm", "C"))
+        if not isinstance(rates, list):
+            bad.append("_diagonal_evolution rates is not a new list")
+        return bad
+    P["diagonal_evolution"] = _diag
+
+    def _qobj_aug():
+        bad = [n for n in ("__iadd__", "__isub__", "__imul__", "__imatmul__", "__itruediv__")
+               if hasattr(q.Qobj, n)]
+        bad = ["Qobj defines in-place operator %s" % n for n in bad]
+        evo = q.QobjEvo([q.liouvillian(q.sigmaz(), [q.sigmam()]), [q.liouvillian(q.sigmax()), f_t]])
+        for fn in (lambda: q.steadystate(evo), lambda: q.steadystate(evo, method="power"),
+                   lambda: q.pseudo_inverse(evo)):
+            try:
+                fn()
+                bad.append("steadystate / pseudo_inverse accept a QobjEvo")
+            except Exception:
+                pass
+        return bad
+    P["qobj_immutable_augassign"] = _qobj_aug
+    P["expect_returns_scalar"] = lambda: (
+        [] if isinstance(_data.expect(q.sigmaz().data, make_state("dm", "C").data), complex)
+        else ["_data.expect does not return a Python complex"])
 
     # mutating operations touch only the receiver, never the object it was copied from
     P["isolation"] = lambda: (
@@ -1546,8 +1770,17 @@ def _run(ctx):
         "tools/tx_c04_alias.py: the translated subset is the model of the function bodies; branch "
         "and loop conditions are not interpreted (all paths); attributes of one object = fields of "
         "one cell; a QobjEvo with its elements list / feedback dicts is one cell",
-        "effect summaries of callees (SUMMARIES table): confirmed on real objects by identity and "
-        "deep snapshots on every run, not proved; callbacks passed by the caller are assumed pure",
+        "effect summaries of callees that are not themselves translated (SUMMARIES table; builtins, "
+        "data-layer kernels - with the in-place kernels iadd_*/imul_*/tidyup*/column_(un)stack_dense "
+        "modelled as writing their first argument -, Qobj methods, integrator set-up): confirmed on real "
+        "objects by identity and deep snapshots on every run, not proved; summaries of translated callees "
+        "(QobjEvo constructor and methods, solver constructors and front ends, coefficients) are "
+        "obligations of their own; callbacks passed by the caller are assumed pure; type facts used for "
+        "`x += ...` (Qobj / Python numbers rebind, locally built lists extend) are probed",
+        "exclusive ownership of a QobjEvo's containers: proved relative to the caller's objects "
+        "(store-time and constructor-exit assertions + C04_owned_container_not_shared_with_caller); "
+        "exclusivity among objects created during one and the same call is confirmed by the "
+        "operation-sequence correspondence only",
         "owned parameters (self of __init__ and of documented in-place methods, **kwargs, the stats "
         "dict handed to a result constructor) may be modified; Propagator.__init__ is covered for "
         "system = Qobj/QobjEvo/list only (a Solver instance given as system is driven in place by design); "
@@ -1712,6 +1945,28 @@ def _run(ctx):
                       {"errors": dict(list(errs.items())[:10])}, found_input=False)
     ctx.sample({"scenario": scs[0].name, "changed": results[scs[0].name][0]})
     ctx.log("oracle: %d scenarios, %d with a changed argument, %d raising" % (len(scs), nfind, len(errs)))
+
+    # ---- 4b. exploration (not part of the C04 statement, never a VIOLATION)
+    acases = aliasing_cases(random.Random(ctx.seed + 404))
+    ares = forked_map(run_alias_case, acases, timeout=40)
+    expl = {"cases": len(acases), "result_follows_later_edit_of_input": [], "documented_opt_out": [],
+            "not_run": []}
+    for case, (st_, val) in zip(acases, ares):
+        if st_ != "ok":
+            expl["not_run"].append("%s: %s %s" % (case[0], st_, str(val)[:120]))
+            continue
+        name, found, optout = val
+        for arg, path in found:
+            rec = "%s: result changes at `%s` after an in-place edit of input `%s`" % (name, path, arg)
+            (expl["documented_opt_out"] if optout else
+             expl["result_follows_later_edit_of_input"]).append(rec)
+            if not optout:
+                print("EXPLORATION: property=C04 input-aliasing (outside the statement, not a violation) "
+                      + rec, flush=True)
+    ctx.cov["exploration_input_aliasing"] = expl
+    ctx.log("exploration input-aliasing: %d cases, %d results follow a later edit of an input, "
+            "%d documented opt-outs" % (len(acases), len(expl["result_follows_later_edit_of_input"]),
+                                        len(expl["documented_opt_out"])))
 
     # ---- 5. every rejected function needs a witness on the implementation
     for it, info in pending:
